@@ -43,6 +43,7 @@ def run(ctx):
     # 1. model checks of the specifications (two TLC runs at a time)
     jobs = [("MC_Rebin", "MC_Rebin" if q else "MC_Rebin_thorough", "Rebin theorems G1 G2 Commute Subset Conserve Nest TofK", False),
             ("MC_Zoom", "MC_Zoom" if q else "MC_Zoom_thorough", "Zoom theorems Sum Com Uniform Shift Relabel Separable", False),
+            ("MC_Rebin", "MC_Rebin_even_quick" if q else "MC_Rebin_even", "Rebin theorems on even spans (segments kept or all combined)", False),
             ("MC_Rebin", "MC_Rebin_vac1", "vacuity guard: some pair is covered, rebinned across segments and views", True),
             ("MC_Rebin", "MC_Rebin_vac2", "vacuity guard: some parameter set combining segments and TOF bins trims nothing", True),
             ("MC_Zoom", "MC_Zoom_vac", "vacuity guard: some zoomed and shifted grid covers a non-trivial image", True)]
@@ -55,7 +56,8 @@ def run(ctx):
     if ctx.replay:
         first = lib.read_ndjson(ctx.replay)[0]["e"]
         traces = [("Trace_Rebin", ctx.replay, "Config")] if first in ("Config", "Ev", "Hist", "Rebin", "End") else \
-                 [("Trace_Zoom", ctx.replay, "ZIn" if first.startswith("Z") else "RIn")]
+                 [("Trace_Rebin", ctx.replay, first)] if first in ("Inv", "Ext", "Down", "Interp") else \
+                 [("Trace_Zoom", ctx.replay, "ZIn" if first.startswith("Z") else "VIn" if first.startswith("V") else "RIn")]
     else:
         exe = lib.build_driver("c15_rebin_zoom")
         env = {"VERIF_SEED": str(ctx.seed)}
@@ -68,6 +70,13 @@ def run(ctx):
         t3 = os.path.join(ctx.work, "zoomr.ndjson")
         lib.run_driver(exe, ["zoomr", t3, 160 if q else 3000, 0 if q else 1], env=env, timeout=1200)
         traces = [("Trace_Rebin", t1, "Config"), ("Trace_Zoom", t2, "ZIn"), ("Trace_Zoom", t3, "RIn")]
+        # beyond the property's sentences: the other index maps (self-contained lines)
+        for (mode, n_q, n_t, mod, b) in (("inv", 120, 1500, "Trace_Rebin", "Inv"), ("ext", 100, 1000, "Trace_Rebin", "Ext"),
+                                         ("down", 100, 1500, "Trace_Rebin", "Down"), ("interp", 40, 400, "Trace_Rebin", "Interp"),
+                                         ("zview", 100, 1500, "Trace_Zoom", "VIn")):
+            t = os.path.join(ctx.work, mode + ".ndjson")
+            lib.run_driver(exe, [mode, t, n_q if q else n_t, 0 if q else 1], env=env, timeout=1200)
+            traces.append((mod, t, b))
     # 3. validate (chunks in parallel)
     work = []
     for (mod, t, b) in traces:
@@ -103,8 +112,19 @@ def run(ctx):
                 cur = (e, rec["opt"], rec["twoD"], tuple(zip(rec["P"], rec["Q"])) if e == "ZIn" else tuple(1 if z > 65536 else -1 if z < 65536 else 0 for z in rec["zf"]))
                 if nexec[mod] % 211 == 1:
                     ctx.sample({k: rec[k] for k in ("e", "lo", "hi", "n", "opt") + (("P", "Q", "o") if e == "ZIn" else ("zf", "off"))})
-            elif e in ("ZOut", "ROut") and cur:
+            elif e in ("ZOut", "ROut", "VOut") and cur:
                 ctx.nontrivial(cur + (rec["call"],))
+            elif e == "VIn":
+                nexec[mod] += 1
+                cur = (e, rec["P"], rec["Q"], rec["view"] == 0, rec["seg"] == 0)
+            elif e == "Inv":
+                ctx.nontrivial((e, rec["kind"], rec["span"], rec["tofMash"] > 0, len(rec.get("nz", [])) > 0))
+            elif e == "Ext":
+                ctx.nontrivial((e, tuple(x > 0 for x in rec["ext"]), rec["minT"] == -rec["maxT"]))
+            elif e == "Down":
+                ctx.nontrivial((e, rec["maxSeg"] > 0, rec["newR"], rec["newN"] > rec["N"]))
+            elif e == "Interp":
+                ctx.nontrivial((e, rec["span"], rec["ospan"], rec["mash"], rec["omash"]))
         if at is not None or not ok:
             ctx.violation("trace not consumed (line %s)" % at, p)
             continue
@@ -137,6 +157,9 @@ def run(ctx):
         "generated cylindrical scanners (4..16 detectors per ring, 1..7 rings), odd spans, input data outside the C01-truncseg class",
         "the commuting relation is demanded where the coarse TOF bins are unions of fine ones (odd num_tof_bins_to_combine, or unmashed input); for an even factor on "
         "mashed input only the weaker relation PermOk (every count in a TOF bin whose k-interval contains the centre of its input bin)",
+        "inverse_SSRB / extend_segment / interpolate_projdata / downsample_scanner / zoom_viewgram(s) (beyond the property's sentences): exact instances only "
+        "(direct sinograms with the same m or half-way, 180-degree data with >= 5 views, same-scanner sampling ratios 1 and 2 with linear B-splines and symmetric tangential "
+        "ranges, cylindrical scanners, arc-corrected viewgrams at phi = 0 and pi/2)",
         "zoom: exact replay for zooms p/q with p, q in 1..3, offsets and origins in quarter voxels, integer images; arbitrary zooms in [0.3, 3] through the "
         "relations between observations (fixed point 2^-8 values, 2^-10 mm)"]
     return ctx.finish(rule="one evaluation = one recorded line of the real code explained by TLC: SSRB geometry (Config), real fine / coarse histogram, real SSRB output "
